@@ -22,6 +22,12 @@ def asHeader (j : Json) : R Header := do
 def mtxJ (l : List (Int × Int)) : Json := listJ (pairJ intJ intJ) l
 def vorgJ (v : Vorg) : Json := Json.mkObj [("default", intJ v.default), ("records", listJ (pairJ Json.str intJ) v.records)]
 
+def cffJ (c : CffW) : Json := Json.mkObj [("d", optJ intJ c.priv.defaultWidthX), ("n", optJ intJ c.priv.nominalWidthX),
+  ("cs", listJ (optJ intJ) c.cs)]
+def asCff (j : Json) : R CffW := do
+  return { priv := { defaultWidthX := ← asOpt asInt (← field j "d"), nominalWidthX := ← asOpt asInt (← field j "n") },
+           cs := ← asList (asOpt asInt) (← field j "cs") }
+
 /-- op "font" -/
 def font (req : Json) : R Reply := do
   let i ← field req "in"
@@ -51,12 +57,15 @@ def font (req : Json) : R Reply := do
     let so ← asList asStr (← field i "setOrder")
     let co := so.filterMap (fun n => gs.find? (fun g => g.name == n))
     let vg := vorgTable typoAsc co gs
+    -- CFF widths: `dn` = the pair of getDefaultAndNominalWidths (null for TrueType)
+    let dn ← asOpt (asPair asInt asInt) (← field i "dn")
     let model := Json.mkObj [
       ("err", Json.null), ("boxes", listJ (optJ boxJ) (gs.map (·.box))),
       ("hmtx", mtxJ hm), ("hhea", headerJ hh),
       ("vmtx", if vertical then mtxJ vm else Json.null), ("vhea", if vertical then headerJ vh else Json.null),
       ("bbox", boxJ fb), ("charRange", pairJ intJ intJ cr), ("extraNames", strsJ (extraNames order)),
-      ("vorg", if vertical && isOtf then vorgJ vg else Json.null), ("numGlyphs", natJ gs.length)]
+      ("vorg", if vertical && isOtf then vorgJ vg else Json.null), ("numGlyphs", natJ gs.length),
+      ("cff", match dn with | some (d, n) => cffJ (cffWidths d n gs) | none => Json.null)]
     match oerr with
     | some _ => return { model, holds := false }
     | none =>
@@ -71,6 +80,11 @@ def font (req : Json) : R Reply := do
         (!reloaded || holdsCharRange cps ocr) && ong == gs.length && rt &&
         (match oex with | none => true | some ex => ex == order.filter (fun g => !standardGlyphOrder.contains g)) &&
         decide (decodeAdvances ohh.numLong ((ohm.map (·.1)).take ohh.numLong) gs.length = ohm.map (·.1))
+      let ocff ← asOpt asCff (← field obs "cff")
+      match dn, ocff with
+      | some _, some c => ok := ok && holdsCffWidths gs c && holdsCffVsHmtx ohm c
+      | none, none => pure ()
+      | _, _ => ok := false
       if vertical then
         let ovm ← asList (asPair asInt asInt) (← field obs "vmtx")
         let ovh ← asHeader (← field obs "vhea")
